@@ -210,3 +210,7 @@ META["C09"]["probes"] = [
     {"name": "escape_static", "class": "C09/escape-observation", "expect": "observe",
      "bins": [("escape_deref", "observe"), ("escape_asref", "observe"), ("escape_field", "observe")]},
 ]
+
+META["C08"]["secondary_measure"] = "distinct schedules reached = distinct sequences of (operation kind, actor(s), loader) ignoring documents, values and flags; exact union over all workers, per build"
+META["C09"]["secondary_measure"] = "distinct schedules reached = distinct sequences of (operation kind, actor(s), loader, kind of damage / injected system-call fault) ignoring documents, values and flags; exact union over all workers, per build"
+META["C19"]["secondary_measure"] = "distinct history shapes = distinct sequences of operation kinds (empty writes distinguished) ignoring arguments; exact union over all workers"
